@@ -1,0 +1,44 @@
+//go:build verif
+
+// Contracts for the govc verifier (see /verif/DESIGN.md). Comment-only.
+
+package agent
+
+// ---- endpoint matching (C07): "registered for exactly that endpoint" ----
+
+// bagContainsEndpoint(bag, eids) is true exactly if some endpoint occurs in both collections.
+// govc:func bagContainsEndpoint property C07
+//@ assigns nothing
+//@ ensures result ==> exists i, j int :: 0 <= i && i < len(bag) && 0 <= j && j < len(eids) && bag[i] == eids[j] @thorough
+//@ ensures !result ==> forall i, j int :: 0 <= i && i < len(bag) && 0 <= j && j < len(eids) ==> bag[i] != eids[j]
+//@ loop 0 invariant 0 <= rangeindex + 1
+//@ loop 0 invariant rangeindex + 1 <= len(eids)
+//@ loop 0 invariant matches != nil
+//@ loop 0 invariant forall j int :: 0 <= j && j < rangeindex + 1 ==> has(matches, eids[j])
+//@ loop 0 invariant forall e bpv7.EndpointID :: has(matches, e) ==> exists j int :: 0 <= j && j < rangeindex + 1 && eids[j] == e @thorough
+//@ loop 1 invariant 0 <= rangeindex + 1 && rangeindex + 1 <= len(bag)
+//@ loop 1 invariant forall i int :: 0 <= i && i < rangeindex + 1 ==> !has(matches, bag[i])
+
+// govc:func bagHasEndpoint property C07
+//@ assigns nothing
+//@ ensures !result ==> forall i int :: 0 <= i && i < len(bag) ==> bag[i] != eid
+//@ ensures result ==> exists i int :: 0 <= i && i < len(bag) && bag[i] == eid @thorough
+
+// A bundle message is addressed to exactly its bundle's destination endpoint.
+// govc:func (BundleMessage).Recipients property C07
+//@ assigns nothing
+//@ ensures len(result) == 1 && result[0] == bm.Bundle.PrimaryBlock.Destination
+
+// ---- REST agent (C07): every client registered for the destination gets the bundle into its mailbox ----
+
+// The iteration callbacks never stop the iteration: all registered clients are looked at, not just the first one.
+// govc:func (*RestAgent).receiveBundleMessage$1 property C07
+//@ requires is(k, string) && is(v, bpv7.EndpointID)
+//@ ensures result
+//@ ensures v.(bpv7.EndpointID) == msg.Bundle.PrimaryBlock.Destination ==> len(uuids) == old(len(uuids)) + 1 && uuids[len(uuids) - 1] == k.(string)
+//@ ensures v.(bpv7.EndpointID) != msg.Bundle.PrimaryBlock.Destination ==> len(uuids) == old(len(uuids))
+
+// govc:func (*RestAgent).Endpoints$1 property C07
+//@ requires is(v, bpv7.EndpointID)
+//@ ensures result
+//@ ensures len(eids) == old(len(eids)) + 1 && eids[len(eids) - 1] == v.(bpv7.EndpointID)
